@@ -320,6 +320,53 @@ func checkSpendPasses(c *Ctx, rule string, leaseOnly bool) {
 	p := c.P
 	passes := findPasses(c, rule)
 	c.Floor(rule, "spendability passes (Balance x3, fetchCredits x2)", len(passes), 5)
+	// one computation, one clock reading: the passes of Balance (and of fetchCredits) partition the outputs by lease state
+	// — "subtract if leased" in one pass, "skip if leased, else subtract if young" in the next. They agree on which outputs
+	// are leased only if every lease test of the computation is handed the same time value, read once before the passes:
+	// with a reading per output, a lease that expires in between is seen as leased by one pass and as free by the next,
+	// and the output is subtracted twice
+	{
+		byTop := map[*ssa.Function][]leaseTest{}
+		var tops []*ssa.Function
+		for _, sp := range passes {
+			top := outermost(sp.fn)
+			if _, ok := byTop[top]; !ok {
+				tops = append(tops, top)
+			}
+			byTop[top] = append(byTop[top], leaseTestsOf(sp.fn, "isLockedOutput")...)
+		}
+		for _, top := range tops {
+			readings := map[*ssa.Call]bool{}
+			undecided := false
+			for _, lt := range byTop[top] {
+				arg, _ := lt.argAtSite(2)
+				if arg == nil {
+					undecided = true
+					continue
+				}
+				found := false
+				for _, o := range (&Slicer{P: p}).Origins(arg) {
+					if call, ok := o.(*ssa.Call); ok && calleeShort(&call.Call) == "Now" {
+						readings[call] = true
+						found = true
+					}
+				}
+				if !found {
+					undecided = true
+				}
+			}
+			ok := !undecided && len(readings) == 1
+			where := ""
+			for call := range readings {
+				if call.Parent() != top || innermostLoopOf(loopsOf(top), call) != nil {
+					ok = false
+				}
+				where += " " + p.Pos(call.Pos())
+			}
+			c.Check(rule, "lease-tests-share-one-clock-reading:"+fnName(top), top.Pos(), ok,
+				fmt.Sprintf("the lease tests of %s do not all use one time value read once before its passes (%d clock readings:%s): a lease expiring during the computation is judged differently by different passes and the output is counted or subtracted twice", fnName(top), len(readings), where))
+		}
+	}
 	for _, sp := range passes {
 		lockTests := leaseTestsOf(sp.fn, "isLockedOutput")
 		spentTests := leaseTestsOf(sp.fn, "existsRawUnminedInput")
@@ -590,6 +637,7 @@ func runC01(c *Ctx) {
 	checkConflictRemoval(c, "C01-R5")
 	checkExistsThenPut(c, "C01-R6")
 	checkCreditRewriteFlags(c, "C01-R6")
+	checkTxRecordHashIsTxid(c, "C01-R6")
 	checkRollbackWalk(c, "C01-R4") // "blocks disconnected": every block at or above the target is detached
 	checkLoopCarriedStructs(c, "C01-R4", []string{"rollback", "updateMinedBalance"})
 	runLoopCompleteness(c, "C01-R4", []string{"updateMinedBalance", "rollback", "insertMemPoolTx", "removeDoubleSpends", "removeConflict", "deleteUnminedTx"})
